@@ -14,7 +14,10 @@
 
    Observation of a run of main:  ob_code = status class (table below), ob_consumed = exit code,
      ob_out = stdout, ob_extra = for every watched path  1 ++ be32(len) ++ content | 0 , followed by the
-     text that belongs to the status (usage text / sender name / unknown sender's encoded key). *)
+     text that belongs to the status (usage text / sender name / unknown sender's encoded key).
+   run_cli evaluates a FLAT world (files in the root = current directory); run_cli_tree a TREE world (directories,
+   canonical absolute paths, a current directory) and renders the whole resulting tree: be32(number of nodes), then for
+   every canonical path of the watch list  0 | 1 ++ be32(len) ++ content | 2 (directory). *)
 From Kestrel Require Import Bytes Outcome IO Prims.
 From Kestrel.Model Require Import AeadWrap Chunks KeyringText Getopts CliParse Cli CliGlue.
 From Kestrel.Model Require Keyring.
@@ -116,7 +119,7 @@ Definition cmd_status_code (st : cmd_status) : N :=
   | SEncryptFailed e => eerr_class e
   | SDecryptFailed e => derr_class e
   | SDecryptAuth => 90 | SPassDecryptAuth => 91 | SStdinNotUtf8 => 92 | SNameInvalid => 93
-  | SPrivateKeyStringBad => 94
+  | SPrivateKeyStringBad => 94 | SOutputOpenFailed => 95 | SOutputWriteFailed => 96
   | SKeyringParse e => perr_code e          (* 101..119 *)
   end.
 Definition main_status_code (st : main_status) : N :=
@@ -133,12 +136,34 @@ Definition status_text (st : main_status) : bytes :=
   | _ => []
   end.
 
+(* a FLAT world: regular files in the root directory, which is also the current directory (the cases that name their
+   files by a single component; the real run happens in a scratch directory holding exactly these files) *)
 Definition mkw (files : list (text * bytes)) (pw npw : option bytes) (kr : option text) (input : bytes) : world :=
-  {| fs := files; env_password := pw; env_new_password := npw; env_keyring := kr; stdin := input |}.
+  {| fs := {| nodes := map (fun f => ([fst f], NFile (snd f))) files; cwd := [] |};
+     env_password := pw; env_new_password := npw; env_keyring := kr; stdin := input |}.
 
+(* short names for the two kinds of node, for the generated case files *)
+Definition nf (c : bytes) : node := NFile c.
+Definition nd : node := NDir.
+
+(* a TREE world: every node under its canonical absolute path (the directories from the root down to the scratch
+   directory of the real run included), and the current directory *)
+Definition mkw_tree (nds : list (cpath * node)) (cur : cpath) (pw npw : option bytes) (kr : option text) (input : bytes) : world :=
+  {| fs := {| nodes := nds; cwd := cur |};
+     env_password := pw; env_new_password := npw; env_keyring := kr; stdin := input |}.
+
+(* the regular file seen through a path string *)
 Definition render_path (l : fsys) (p : text) : bytes :=
   match fs_get l p with
   | Some c => 1 :: be32 (N.of_nat (length c)) ++ c
+  | None => [0]
+  end.
+
+(* the node at a canonical path: 0 nothing | 1 ++ be32(len) ++ content | 2 directory *)
+Definition render_node (l : fsys) (cp : cpath) : bytes :=
+  match node_at l cp with
+  | Some (NFile c) => 1 :: be32 (N.of_nat (length c)) ++ c
+  | Some NDir => [2]
   | None => [0]
   end.
 
@@ -146,3 +171,11 @@ Definition run_cli (t : kdf_table) (w : world) (argv : list text) (rnd1 rnd2 hel
   let r := real_cli_main (PR t) utf8_decode utf8 help ver w argv rnd1 rnd2 in
   {| ob_code := main_status_code (m_status r); ob_out := m_stdout r; ob_consumed := m_exit r; ob_trace := [];
      ob_extra := flat_map (render_path (m_fs r)) watch ++ status_text (m_status r) |}.
+
+(* the WHOLE resulting tree: the number of nodes, then every canonical path of [watch] (the caller lists every path
+   that exists before or after the real run), then the text that belongs to the status *)
+Definition run_cli_tree (t : kdf_table) (w : world) (argv : list text) (rnd1 rnd2 help ver : bytes) (watch : list cpath) : obs :=
+  let r := real_cli_main (PR t) utf8_decode utf8 help ver w argv rnd1 rnd2 in
+  {| ob_code := main_status_code (m_status r); ob_out := m_stdout r; ob_consumed := m_exit r; ob_trace := [];
+     ob_extra := be32 (N.of_nat (length (nodes (m_fs r)))) ++ flat_map (render_node (m_fs r)) watch
+                 ++ status_text (m_status r) |}.
